@@ -27,9 +27,30 @@ first={ # detection on first pass, strengthening
 'C18-w4-m1':('MISSED at first (stepper runs had no deadline)','every execution runs under a one-hour simulated deadline; the budget-timeout fault of C03 is injected under the stepper too'),
 'C18-w4-m2':('MISSED at first (no evaluator panic crossed a callback builtin)','templates in which a malformed special form panics inside map/apply/reduce/swap! within a try'),
 'C18-w4-m3':('MISSED at first (no program made thousands of tail calls under the stepper)','a tail loop of ~4000 iterations'),
+'C02-w5-m1':('MISSED at first (no pool value contained an empty map)','seed maps holding empty maps that are values of their own; assoc-in/update-in paths ending in them'),
+'C02-w5-m2':('MISSED at first (no binary values in the pool)','binary values: unbase64 of payloads of decreasing length, base64 round trips; []byte in the canonical printer'),
+'C02-w5-m3':('caught at once (race oracle)',None),
+'C03-w5-m1':('MISSED at first (nothing was thrown inside an update function of swap!)','throws raised inside a swap! update function after the function has reset the atom'),
+'C03-w5-m2':('MISSED at first (no Go builtin wrapped the error of a lisp callback)','harness builtin (visit f) that calls f through types.Apply and wraps its error in a Go error of its own; the reference model wraps the thrown object likewise'),
+'C03-w5-m3':('MISSED at first (thrown vectors and maps held constants only)','thrown vectors, maps and nested collections containing symbols and code-looking lists, with metadata'),
+'C07-w5-m1':('MISSED at first (no update function reached through a builtin read its atom)','loops that swap! through update / map with a callback reading the atom being swapped (C07 and C09)'),
+'C07-w5-m2':('MISSED at first (handler probes had no try inside the body)','nested handler probes: a try inside another try body (literally, through a function, under let, inside map): the inner handler runs once, the outer one not at all'),
+'C07-w5-m3':('MISSED at first (bodies never failed before the cancellation)','programs whose body fails at once with an ordinary error and whose handler is what the cancellation cuts short: the result must be the timeout error'),
+'C09-w5-m1':('caught at once',None),
+'C09-w5-m2':('caught at once',None),
+'C09-w5-m3':('MISSED at first (no operation was ever cancelled)','fault: an operation runs under a context of its own that is cancelled at a drawn hook point inside it; an operation that ended with that timeout is placed by what others saw of its token'),
+'C10-w5-m1':('caught at once (race oracle)',None),
+'C10-w5-m2':('caught at once',None),
+'C10-w5-m3':('caught at once',None),
+'C11-w5-m1':('MISSED at first (no evaluation was cancelled while computing)','templates that cancel a future in the middle of a computation (race oracle)'),
+'C11-w5-m2':('MISSED: out of reach (needs simultaneous evaluations whose nesting depths add up to 150000 frames; see DESIGN.md §10)',None),
+'C11-w5-m3':('MISSED at first (no shared atom was printed)','shared atoms printed with str / pr-str by every program'),
+'C18-w5-m1':('MISSED at first (every literal node was evaluated once)','functions containing map and vector literals called several times with different arguments'),
+'C18-w5-m2':('MISSED at first (no init form read the outer binding of the name it shadows)','let forms whose init forms read the shadowed outer binding'),
+'C18-w5-m3':('caught at once',None),
 }
 rows=[]
-for d in sorted(glob.glob('/verif/seeded/*-w4-m*')):
+for d in sorted(glob.glob('/verif/seeded/*-w[45]-m*')):
     id=os.path.basename(d)
     notes=open(d+'/NOTES.md').read()
     head=notes.splitlines()[0]
@@ -38,7 +59,7 @@ for d in sorted(glob.glob('/verif/seeded/*-w4-m*')):
     needs=' '.join(m.group(1).split())[:400] if m else ''
     det,stren=first[id]
     v,cl=clauses.get(id,('?',''))
-    meta={"id":id,"property":id[:3],"wave":4,"what_it_changes":what,"needs_to_manifest":needs,
+    meta={"id":id,"property":id[:3],"wave":int(id[5]),"what_it_changes":what,"needs_to_manifest":needs,
      "confirmed":{"how":"tools/confirm_mutant.sh in a scratch worktree of /repo HEAD: patch applies, go build ok, 48 baseline tests pass with the patch, demonstration passes without and fails with the patch","result":"confirmed"},
      "demonstration":sorted(os.path.basename(x) for x in glob.glob(d+'/*_test.go')),
      "checked_with":"tools/try_mutant.sh seeded/%s/patch.diff quick %s (scratch worktree; /repo untouched)"%(id,id[:3]),
@@ -46,5 +67,5 @@ for d in sorted(glob.glob('/verif/seeded/*-w4-m*')):
      "clauses_reporting_it":cl}
     json.dump(meta,open(d+'/meta.json','w'),indent=1,ensure_ascii=False)
     rows.append("| %s | %s | %s | %s |"%(id,what.replace('|','/'),meta['detection'].replace('|','/'),cl))
-open('/tmp/w4rows.md','w').write('\n'.join(rows)+'\n')
-print(len(rows),sum(1 for r in clauses if '-w4-' in r))
+open('/tmp/w45rows.md','w').write('\n'.join(rows)+'\n')
+print(len(rows),sum(1 for r in clauses if '-w4-' in r or '-w5-' in r))
